@@ -190,6 +190,15 @@ def prodHasExoticL : List Expr → Bool
   | c :: cs => prodHasExotic c || prodHasExoticL cs
 end
 
+/-- `map_common_subexpression_uncached` after the recursive call: `result = self.rec(expr.child)`;
+`if primitives.is_zero(result): return 0`; otherwise `type(expr)(result, expr.prefix, expr.scope)`.
+`is_zero(x)` is `not bool(x)` (`Expr.isZero`): every falsy derivative — the int `0`, `False`, a
+float zero, a `Product` with a falsy factor, a `Quotient` with a falsy numerator — becomes the
+int literal `0`, which the product and power rules recognise (a wrapper around `0` is truthy).
+(`is_zero(None)` raises ValueError; no rule returns `None` as a derivative.) -/
+def cseRule (d : Expr) (p : Option String) (s : String) : Expr :=
+  if d.isZero then zero else .cse d p s
+
 mutual
 /-- `DifferentiationMapper(v, allowed_nonsmoothness=cfg).rec`, without the CSE cache -/
 def diff (cfg : Smooth) (v : Expr) : Expr → DiffR
@@ -237,7 +246,7 @@ def diff (cfg : Smooth) (v : Expr) : Expr → DiffR
       if c.hasList then throw .typeError      -- hashing the cache key raises
       else do
         let d ← diff cfg v c
-        pure (.cse d p s)
+        pure (cseRule d p s)
   | .subst _ _ _ => throw .unsupported
   | .deriv _ _ => throw .unsupported
   | .slice _ => throw .unsupported
@@ -348,7 +357,7 @@ def diffC (cfg : Smooth) (v : Expr) : Expr → DM Expr
       | some r => (.ok r, st)
       | Option.none =>
         match diffC cfg v c st with
-        | (.ok d, st') => (.ok (.cse d p s), (.cse c p s, .cse d p s) :: st')
+        | (.ok d, st') => (.ok (cseRule d p s), (.cse c p s, cseRule d p s) :: st')
         | (.error err, st') => (.error err, st')
   | .subst _ _ _ => DM.throw .unsupported
   | .deriv _ _ => DM.throw .unsupported
